@@ -170,13 +170,23 @@ def Ident.zero : Ident := Ident.fromBytes []
 def Path.toIdentifier (p : Path) : Ident :=
   [p.depth % 256] ++ u32be p.c0.toU32 ++ u32be p.c1.toU32 ++ u32be p.c2.toU32 ++ u32be p.c3.toU32
 
-/-- `ExtKeychainPath::from_identifier` = `Identifier::to_path` (total on 17 bytes) -/
+/-- `ExtKeychainPath::from_identifier` = `Identifier::to_path` (total on 17 bytes).  Since the
+    repair cb1f5b25f the depth is `min(depth_byte, 4)`: a path has at most 4 components whatever
+    the depth byte says (before it, a depth byte 5..255 made every user of the path index out of
+    bounds). -/
 def Ident.toPath (id : Ident) : Path :=
   match id with
   | [d, a0, a1, a2, a3, b0, b1, b2, b3, e0, e1, e2, e3, f0, f1, f2, f3] =>
-    ⟨d, .ofU32 (readU32 a0 a1 a2 a3), .ofU32 (readU32 b0 b1 b2 b3),
+    ⟨min d 4, .ofU32 (readU32 a0 a1 a2 a3), .ofU32 (readU32 b0 b1 b2 b3),
         .ofU32 (readU32 e0 e1 e2 e3), .ofU32 (readU32 f0 f1 f2 f3)⟩
   | _ => ⟨0, .normal 0, .normal 0, .normal 0, .normal 0⟩   -- not an identifier (unreachable: type is [u8; 17])
+
+/-- the depth byte `id.0[0]` as stored (0..255; only `min(·, 4)` of it is ever used) -/
+def Ident.depthByte (id : Ident) : Nat := id.headD 0
+
+/-- the identifier with its depth byte clamped to 4: what `from_path(to_path(id))` and
+    `check_output` on `proof_message(id)` give back -/
+def clampId (id : Ident) : Ident := min (id.headD 0) 4 :: id.drop 1
 
 /-- `Identifier::serialize_path`: bytes 1..17 -/
 def Ident.serializePath (id : Ident) : Bytes := id.drop 1
@@ -188,7 +198,8 @@ def Ident.fromSerializedPath (len : Nat) (p : Bytes) : Option Ident :=
 /-- `ExtKeychain::derive_key_id(depth, d1, d2, d3, d4)` -/
 def deriveKeyId (depth d1 d2 d3 d4 : Nat) : Ident := (Path.new depth d1 d2 d3 d4).toIdentifier
 
-/-- `Identifier::parent_path`: `none` = panic (`p.path[depth-1]` with depth > 4) -/
+/-- `Identifier::parent_path`: `none` = panic (`p.path[depth-1]` with depth > 4 — not reachable
+    any more: `from_identifier` clamps the depth, `identifier_ops_total`) -/
 def Ident.parentPath (id : Ident) : Option Ident :=
   let p := id.toPath
   if p.depth > 0 then
@@ -197,11 +208,14 @@ def Ident.parentPath (id : Ident) : Option Ident :=
     else none
   else some p.toIdentifier
 
-/-- `ExtKeychainPath::last_path_index`: `none` = panic -/
+/-- `ExtKeychainPath::last_path_index`: `none` = panic. Still reachable on a path *struct* whose
+    public `depth` field exceeds 4 (`ExtKeychainPath::new(5, ..).last_path_index()`), not through
+    `Identifier::to_path` -/
 def Path.lastPathIndex (p : Path) : Option Nat :=
   if p.depth = 0 then some 0 else (p.get? (p.depth - 1)).map ChildNumber.toU32
 
-/-- the `depth` first components, as `derive_key`'s loop reads them: `none` = index panic (depth > 4) -/
+/-- the `depth` first components, as `derive_key`'s loop reads them: `none` = index panic
+    (`path[i]` with i ≥ 4; only for a path struct with depth > 4, which `to_path` never returns) -/
 def Path.prefix? (p : Path) : Option (List ChildNumber) :=
   if p.depth ≤ 4 then some (p.comps.take p.depth) else none
 
@@ -251,8 +265,9 @@ def ckdAll {K : Type} (kd : KeyDeriv K) : K → List ChildNumber → Option K
     | some k' => ckdAll kd k' cs
     | Option.none => Option.none
 
-/-- `ExtKeychain::derive_key(amount, id, switch)`: walks `path[0..depth]` — components beyond `depth`
-    are ignored, `depth > 4` indexes out of the 4-array and panics. -/
+/-- `ExtKeychain::derive_key(amount, id, switch)`: walks `path[0..depth]` of `id.to_path()` —
+    components beyond `depth` are ignored; the `panic` arm (index out of the 4-array) is dead since
+    `to_path` clamps the depth (`derive_total`). -/
 def deriveKey {K : Type} (kd : KeyDeriv K) (amount : Nat) (id : Ident) (sw : Switch) : Res Nat :=
   match id.toPath.prefix? with
   | Option.none => .panic
